@@ -312,3 +312,21 @@ import glob as _glob, importlib.util as _ilu, os as _os
 for _f in sorted(_glob.glob(_os.path.join(_os.path.dirname(_os.path.abspath(__file__)), "props_extra", "*.py"))):
     _spec = _ilu.spec_from_file_location("props_extra_" + _os.path.basename(_f)[:-3], _f); _m = _ilu.module_from_spec(_spec); _spec.loader.exec_module(_m)
     PROPS.update(getattr(_m, "PROPS", {})); META.update(getattr(_m, "META", {}))
+
+# Budgets (cases per run). Quick tiers are sized from the throughput measured on the idle 16-core sandbox so that every quick check generates for roughly
+# 40-90 s (a quick tier of a few seconds stays green on broken trees: several seeded changes need 10^4-10^5 cases of their class).
+_QUICK = {"C01": 100000, "C02": 400000, "C03": 200000, "C04": 16000, "C05": 50000, "C06": 45000, "C07": 150000, "C08": 150000, "C09": 40000, "C10": 70000, "C11": 50000,
+          "C12": 40000, "C13": 280, "C14": 300000, "C15": 800000, "C16": 5000, "C17": 6000, "C18": 40000, "C19": 300000, "C20": 800000}
+_THOROUGH = {"C12": 1000000, "C13": 3500, "C17": 300000, "C18": 1000000, "C16": 150000, "C02": 6000000, "C03": 4000000, "C07": 3000000, "C08": 3000000, "C14": 6000000,
+             "C15": 12000000, "C19": 6000000, "C20": 12000000, "C09": 900000}
+for _id, _n in _QUICK.items(): PROPS[_id]["quick"]["cases"] = _n
+for _id, _n in _THOROUGH.items(): PROPS[_id]["thorough"]["cases"] = _n
+for _id in ("C12", "C18"): PROPS[_id]["quick"]["shards"] = 14
+PROPS["C13"]["thorough"].update(shards=8, case_budget=120); PROPS["C17"]["thorough"].update(shards=12, case_budget=120)
+
+# coverage-guided phase (libFuzzer, thorough tier): the in-process properties of the ASan driver; C12/C18 (TSan), C13/C16/C17 (spawn processes) stay rapidcheck-only
+FUZZED = ["C01", "C02", "C03", "C04", "C05", "C06", "C07", "C08", "C09", "C10", "C11", "C14", "C15", "C19", "C20"]
+for _id in FUZZED: PROPS[_id].setdefault("fuzz", dict(workers=8, seconds=240, max_len=600))
+for _id in FUZZED:
+    if "libFuzzer" not in META[_id]["technique"]:
+        META[_id]["technique"] += "; thorough tier adds coverage-guided fuzzing (libFuzzer with ASan/UBSan) over the same decoder and the same oracle"
